@@ -8,6 +8,8 @@ import (
 	"math/big"
 	"strings"
 
+	"encoding/hex"
+
 	ethcommon "github.com/ethereum/go-ethereum/common"
 	ethcrypto "github.com/ethereum/go-ethereum/crypto"
 )
@@ -59,6 +61,7 @@ type Profile struct {
 type pendRec struct {
 	tid                uint64
 	req                string
+	reqHex             string
 	chain, contract    string
 	tok                string
 	created            int64
@@ -388,6 +391,16 @@ func (g *genState) settlementMsg() *Msg {
 			req = head + []string{"17/item-1", "18/item-1", "17/item-2", "", "1"}[r.Intn(5)]
 		}
 		m := &Msg{Kind: "record", Sender: g.senderFor(t), Tid: t.id, Req: req, Denom: g.denomFor(t), Amount: g.amount()}
+		reqHex := ""
+		if g.p.Adversarial && r.Chance(5) {
+			// request ids that are not UTF-8 (a protobuf string field holds any bytes on the wire)
+			reqHex = hex.EncodeToString([]byte(req)) + []string{"ff", "c328", "fffe00", "eda080"}[r.Intn(4)]
+			m.ReqHex = reqHex
+		}
+		if g.p.Adversarial && r.Chance(12) {
+			// metadata is free-form: only the event carries it
+			m.MetaHex = []string{"ff", "c328", hex.EncodeToString([]byte(`{"a":"\u0000","b":[1,2]}`)), strings.Repeat("61", 20000), "00"}[r.Intn(5)]
+		}
 		if g.p.Internal && r.Chance(50) {
 			m.Chain = ChainID
 			m.Contract = g.nftAddr
@@ -417,13 +430,13 @@ func (g *genState) settlementMsg() *Msg {
 			// an NFT "contract" on this chain that is an address the EVM reserves, or one without code
 			m.Contract = foreignContracts[r.Intn(len(foreignContracts))]
 		}
-		g.recs = append(g.recs, &pendRec{tid: t.id, req: req, chain: m.Chain, contract: m.Contract, tok: m.Tok, created: g.height, external: m.Chain != ChainID})
+		g.recs = append(g.recs, &pendRec{tid: t.id, req: req, reqHex: reqHex, chain: m.Chain, contract: m.Contract, tok: m.Tok, created: g.height, external: m.Chain != ChainID})
 		return m
 	case k < 62:
-		req := "nope"
+		req, reqHex := "nope", ""
 		if len(g.recs) > 0 && !r.Chance(10) {
 			pr := g.recs[r.Intn(len(g.recs))]
-			req = pr.req
+			req, reqHex = pr.req, pr.reqHex
 			if !r.Chance(15) {
 				for i := range g.tenants {
 					if g.tenants[i].id == pr.tid {
@@ -432,7 +445,7 @@ func (g *genState) settlementMsg() *Msg {
 				}
 			}
 		}
-		return &Msg{Kind: "cancel", Sender: g.senderFor(t), Tid: t.id, Req: req}
+		return &Msg{Kind: "cancel", Sender: g.senderFor(t), Tid: t.id, Req: req, ReqHex: reqHex}
 	case k < 78:
 		if t.denom == pairDenom {
 			// coins deposited to a token-pair tenant are not what its payouts spend (they convert the TOKEN balance):
